@@ -19,6 +19,7 @@
   with distinct fresh output variables leaves in those.
 -/
 import MpirProofs.Lemmas.AliasDiv
+import MpirProofs.Lemmas.AliasUi
 namespace Mpir.AliasMem
 open Mpir
 
@@ -152,6 +153,18 @@ example : look (divexact 0 0 1 (ofInts [-(2 ^ 70 + 3) * (2 ^ 130 + 1), 2 ^ 70 + 
     .ok [(-(2 ^ 130 + 1), 4, 0), (2 ^ 70 + 3, 2, 1)] := by decide
 example : look (divexact 1 0 1 (ofInts [-(2 ^ 70 + 3) * (2 ^ 130 + 1), 2 ^ 70 + 3])) 2 =
     .ok [(-(2 ^ 70 + 3) * (2 ^ 130 + 1), 4, 0), (-(2 ^ 130 + 1), 3, 2)] := by decide
+
+/-- mpz_tdiv_q_ui / mpz_fdiv_q_ui / mpz_cdiv_q_ui (`dir` = 0 / -1 / 1; tdiv_q_ui.c, fdiv_q_ui.c, cdiv_q_ui.c), q = n allowed
+    (mpn_divrem_1 forms the quotient in place): the stored quotient is the one of the family, the return value is |r|. -/
+theorem div_q_ui_ptr_spec (dir : Int) (hdir : dir = 0 ∨ dir = -1 ∨ dir = 1) {s : St} (h : Inv s) {q n : Nat}
+    (hq : q < s.nv) (hn : n < s.nv) (d : Nat) (hd0 : d ≠ 0) (hdB : d < B) :
+    ∃ s', div_q_ui dir q n d s = .ok (DivZ.uiRet (DivZ.specR dir (s.value n) d), s') ∧ Inv s' ∧ s'.nv = s.nv ∧
+      s'.value q = DivZ.specQ dir (s.value n) d ∧ ∀ i, i < s.nv → i ≠ q → s'.value i = s.value i :=
+  div_q_ui_ok dir hdir h hq hn d hd0 hdB
+
+example : (div_q_ui (-1) 1 1 7 exSt).map (fun p => (p.1, p.2.view 2)) =
+    .ok (2, [(2 ^ 200 + 12345, 4, 0), (-168655945816773043347, 2, 1)]) := by decide
+example : Int.fdiv (-(2 ^ 70 + 3)) 7 = -168655945816773043347 ∧ Int.fmod (-(2 ^ 70 + 3)) 7 = 2 := by decide
 
 /-- one statement for the three-argument functions: the aliased call leaves in `w` what the call with a distinct
     output variable `w'` leaves in `w'`. -/
